@@ -9,10 +9,16 @@ package rtpav1
 // that is what Y and Z tell the depacketizer: "the last OBU element continues in the next
 // packet". Closing a packet into which nothing of the OBU fitted must not set them.
 //@ func (e *Encoder) Encode
-//@   requires e.SSRC != nil
+//@   requires e.SSRC != nil && 1 <= e.PayloadMaxSize && e.PayloadMaxSize <= 65535
+//@   assert[C06]@call:finalizeCurPacket#1 curPacket != nil && len(curPacket.Payload) <= e.PayloadMaxSize
+//@   assert[C06]@call:finalizeCurPacket#2 curPacket != nil && len(curPacket.Payload) <= e.PayloadMaxSize
 //@   assert[C03]@call:finalizeCurPacket#1 (arg(0) ==> len(obu) < obuLen) && (!arg(0) ==> len(obu) == obuLen)
 //@   assert[C03]@call:createNewPacket#2 (arg(0) ==> len(obu) < obuLen) && (!arg(0) ==> len(obu) == obuLen)
 //@   modifies *
+//@   loop 1
+//@     invariant curPacket != nil && 1 <= len(curPacket.Payload) && len(curPacket.Payload) <= e.PayloadMaxSize && e.PayloadMaxSize == old(e.PayloadMaxSize) && maxFragmentedLEBSize == lebsize(e.PayloadMaxSize)
+//@   loop 2
+//@     invariant curPacket != nil && 1 <= len(curPacket.Payload) && len(curPacket.Payload) <= e.PayloadMaxSize && e.PayloadMaxSize == old(e.PayloadMaxSize) && maxFragmentedLEBSize == lebsize(e.PayloadMaxSize)
 
 // --- decoder (C08) -------------------------------------------------------------------------
 // What the decoder keeps between calls is bounded: the partial OBU and the OBUs of the current
